@@ -67,6 +67,15 @@ SELF_RECORDS = {"BodyWriter": [("mode", "SenderMode"), ("ended", "bool")]}
 COQ_TYPE = {"Method": "method", "Dechunker": "dechunker", "BodyReader": "reader", "SenderMode": "smode", "bool": "bool", "usize": "N", "u64": "N"}
 
 
+def parse_all(toks, what="expr"):
+    """parse a token list completely (anything left over is an error, never silently dropped)"""
+    p = P(toks)
+    r = p.expr() if what == "expr" else p.pattern()
+    if p.peek()[0] != "eof":
+        raise Unsupported("tokens left over after a macro argument: %r" % (p.peek(),))
+    return r
+
+
 class Impure(Exception):
     """the expression needs the continuation-passing translation (it has an effect or can leave the function)"""
 
@@ -317,10 +326,19 @@ class Tr(object):
         if k == "macro":
             if e[1] == "matches":
                 parts = split_macro_args(e[2])
-                scrut = P(parts[0]).expr()
-                pat = P(parts[1]).pattern()
-                pt, _ = self.pat(pat, env, None)
-                return "(match %s with %s => true | _ => false end)" % (self.pure(scrut, env), pt)
+                if len(parts) != 2:
+                    raise Unsupported("matches! with %d arguments" % len(parts))
+                scrut = parse_all(parts[0])
+                pp = P(parts[1])
+                pat = pp.pattern()
+                guard = None
+                if pp.at("if"):
+                    pp.next()
+                    guard = pp.expr()
+                if pp.peek()[0] != "eof":
+                    raise Unsupported("tokens left over in matches!")
+                pt, env2 = self.pat(pat, env, None)
+                return "(match %s with %s => %s | _ => false end)" % (self.pure(scrut, env), pt, self.pure(guard, env2) if guard is not None else "true")
             raise Impure()
         if k == "call":
             return self.pure_call(e, env)
@@ -818,7 +836,7 @@ class Tr(object):
                 if parts[0] != [("id", wname)] or parts[1][0][0] != "str":
                     raise Unsupported("write! target / format")
                 fmt = parts[1][0][1]
-                args = [P(p).expr() for p in parts[2:]]
+                args = [parse_all(p) for p in parts[2:]]
                 pieces.extend(self.format(fmt, args, env))
             else:
                 raise Unsupported("statement inside a try_write closure")
@@ -891,7 +909,7 @@ class Tr(object):
         if kd == "expr":
             e = s[1]
             if e[0] == "macro" and e[1] == "assert":
-                c = P(split_macro_args(e[2])[0]).expr()
+                c = parse_all(split_macro_args(e[2])[0])
                 return '(if %s then %s else Panic "%s: assert! in %s")' % (self.pure(c, env), nxt(env), self.cfg["file"], self.cfg["rust"])
             if e[0] in ("loop", "while"):
                 return self.loop(e, env, nxt)
@@ -1288,29 +1306,32 @@ Open Scope bool_scope.
 BASELINE = os.path.join(os.path.dirname(os.path.abspath(__file__)), "gen2_baseline.json")
 
 
-def regenerate2(repo, out_path, write_baseline=False):
-    """Returns {'translated2': [...], 'failed2': {name: reason}}; rewrites out_path only when its content changes.
-    A function that cannot be translated any more is replaced by its BASELINE translation (the translation of the same function
-    at the pinned commit, committed in tools/gen2_baseline.json, about which the stored equivalence proofs are known to go
-    through): it then says nothing about the current source, is reported, and the function is tied by the correspondence check only."""
-    import json
+def _sig(params, kind):
+    return [[p[0], p[1]] for p in params] + [kind]
+
+
+def _generate(repo, base, force):
     chunks = [PREAMBLE2]
     # functions translated by tools/rs2coq.py (Gen.v) that the functions translated here call
     known = {(None, "max_chunk_fit"): FnInfo("gen_max_chunk_fit", [("available", "val", "usize"), ("max_chunk", "val", "usize")], "plain")}
     done = []
     failed = {}
-    base = {}
-    if os.path.exists(BASELINE) and not write_baseline:
-        base = json.load(open(BASELINE))
     newbase = {}
     for cfg in FUNCS2:
         try:
+            if cfg["coq"] in force:
+                raise Unsupported(force[cfg["coq"]])
             text = open(os.path.join(repo, cfg["file"])).read()
             code, info = translate(text, cfg, rs2coq.constants_of(text), known)
+            fb = base.get(cfg["coq"])
+            if fb is not None and _sig(info.params, info.kind) != _sig(fb["params"], fb["kind"]):
+                raise Unsupported("the function's interface changed (the stored statements are about the interface at the pinned commit)")
             chunks.append("(* %s :: fn %s *)\n%s\n" % (cfg["file"], cfg["rust"], code))
             known[(cfg.get("impl"), cfg["rust"])] = info
             done.append(cfg["coq"])
-            newbase[cfg["coq"]] = {"code": code, "params": info.params, "kind": info.kind, "rust_ret": info.rust_ret}
+            names = set(c["coq"] for c in FUNCS2)
+            newbase[cfg["coq"]] = {"code": code, "params": info.params, "kind": info.kind, "rust_ret": info.rust_ret,
+                                   "calls": sorted(n for n in set(re.findall(r"gen_[A-Za-z0-9_]+", code)) if n in names and n != cfg["coq"])}
         except (Unsupported, Impure, OSError, ValueError, KeyError, IndexError, AttributeError, TypeError, RecursionError) as ex:
             failed[cfg["coq"]] = "%s: %s" % (type(ex).__name__, ex)
             fb = base.get(cfg["coq"])
@@ -1320,7 +1341,30 @@ def regenerate2(repo, out_path, write_baseline=False):
                           "   tied to the current source by the correspondence check only *)\n%s\n" % (
                               cfg["file"], cfg["rust"], str(ex).replace("*)", "* )"), fb["code"]))
             known[(cfg.get("impl"), cfg["rust"])] = FnInfo(cfg["coq"], [tuple(p) for p in fb["params"]], fb["kind"], rust_ret=fb["rust_ret"])
-    text = "\n".join(chunks)
+    return "\n".join(chunks), done, failed, newbase
+
+
+def regenerate2(repo, out_path, write_baseline=False, force_all=None):
+    """Returns {'translated2': [...], 'failed2': {name: reason}}; rewrites out_path only when its content changes.
+    A function that cannot be translated any more, or whose interface (parameters, result kind) differs from the one the stored
+    lemmas are stated about, is replaced by its BASELINE translation (the translation of the same function at the pinned commit,
+    committed in tools/gen2_baseline.json, about which the stored equivalence proofs are known to go through): it then says nothing
+    about the current source, is reported, and the function is tied by the correspondence check only.  A stand-in calls its callees
+    through the interfaces of the pinned commit, which is sound because a callee whose interface changed is a stand-in too; a caller
+    whose call no longer fits a callee's (pinned) interface cannot be translated and falls back as well (iterated to a fixpoint)."""
+    import json
+    base = {}
+    if os.path.exists(BASELINE) and not write_baseline:
+        base = json.load(open(BASELINE))
+    force = {}
+    if force_all:
+        force = dict((c["coq"], force_all) for c in FUNCS2)
+    for _round in range(len(FUNCS2) + 2):
+        text, done, failed, newbase = _generate(repo, base, force)
+        more = dict((n, r) for n, r in failed.items() if n not in force)
+        if not more:
+            break
+        force.update(more)
     if not os.path.exists(out_path) or open(out_path).read() != text:
         with open(out_path, "w") as f:
             f.write(text)
